@@ -109,13 +109,6 @@ class Report:
     def finish(self, selftest: Optional[dict] = None) -> int:
         known, fixed = load_known()
         viol = [o for o in self.obl if o.verdict == "violation"]
-        for rule, msg in self.floor_misses:
-            # a missing instance that is itself reported as a violation of the
-            # same rule is explained; otherwise the rule lost its anchor
-            if not viol:
-                self.undecided(rule, msg)
-            elif not any(o.rule == rule for o in viol):
-                self.extra.setdefault("floor_misses_beside_violations", []).append(f"{rule}: {msg}")
         matched, fresh = [], []
         kmap = {(k["property"], k["key"]): k for k in known}
         for o in viol:
@@ -124,6 +117,14 @@ class Report:
                 matched.append((o, k))
             else:
                 fresh.append(o)
+        for rule, msg in self.floor_misses:
+            # a missing instance that is itself reported as a (new) violation is explained; otherwise the rule
+            # lost its anchor.  Violations that are listed as known findings explain nothing: they are there on
+            # every run, so a floor missed beside them must still make the run UNDECIDED
+            if not fresh:
+                self.undecided(rule, msg)
+            elif not any(o.rule == rule for o in fresh):
+                self.extra.setdefault("floor_misses_beside_violations", []).append(f"{rule}: {msg}")
         vdir = os.path.join(self.evidence_dir, f"{self.prop}.violations")
         if os.path.isdir(vdir):
             shutil.rmtree(vdir)
